@@ -544,6 +544,12 @@ func ruleCC2(pkgs ...string) Rule {
 						}
 						m := c.P.FuncOf(fo)
 						seen := map[*types.Var]bool{}
+						// a deferred method runs when the function is left: what counts is the join inside it
+						var inMethod map[ast.Node]bool
+						if _, deferred := c.P.Parent(call).(*ast.DeferStmt); deferred && m != nil && m.Decl != nil && m.Decl.Recv != nil && len(m.Decl.Recv.List) == 1 && len(m.Decl.Recv.List[0].Names) == 1 {
+							mi := m.Info()
+							inMethod = core.NewFlow(m).MustSeen(false, c.isJoinOf(pkg, mi, mi.Defs[m.Decl.Recv.List[0].Names[0]]), nil)
+						}
 						for _, a := range c.receiverAccesses(m, fields, 0) {
 							fv := core.FieldOf(a.f.Info(), a.node)
 							if seen[fv] || !touched[fv] || !c.writtenAfterCtor(pkg, fv) {
@@ -552,6 +558,14 @@ func ruleCC2(pkgs ...string) Rule {
 							seen[fv] = true
 							n++
 							key := fmt.Sprintf("%s|%s: %s after %s", f.Name, exprStr(call.Fun), fields[fv], spawnStr(sp))
+							if inMethod != nil {
+								if a.f == m && inMethod[a.node] {
+									rr.OK(f, key, call.Pos(), "joined", "the deferred method waits for the lexer goroutine before it touches "+fields[fv])
+								} else {
+									rr.Bad(f, key, call.Pos(), fmt.Sprintf("the deferred %s touches %s without having waited for the lexer goroutine first", exprStr(call.Fun), fields[fv]))
+								}
+								continue
+							}
 							if joined[call] {
 								rr.OK(f, key, call.Pos(), "joined", "the method's access to "+fields[fv]+" is preceded on every path by the join of "+sp.Var.Name())
 							} else {
